@@ -41,6 +41,12 @@ pub fn run_chain(ext: &str, data: &[u8], with_plugins: bool, rep: &mut Rep, is_c
     let _ = take_panics();
     let r = std::panic::catch_unwind(std::panic::AssertUnwindSafe(|| chain(ext, data, with_plugins)));
     let panics = take_panics();
+    if !panics.is_empty() && panics.iter().all(|p| p.contains("PoisonError")) {
+        // a lock of adlt's global state was poisoned by the panic of an earlier case of this process (that case has
+        // been reported): what follows in this process says nothing about this input
+        rep.label("after_poisoned_lock");
+        return Ok(());
+    }
     if !panics.is_empty() || r.is_err() {
         let sigs = open_panic_signatures();
         let mut known: Option<&'static str> = None;
@@ -397,6 +403,9 @@ fn logcat_line() -> impl Strategy<Value = String> {
         2 => (prop_oneof![Just("01-01".to_string()), Just("12-31".to_string()), Just("1970-01-01".to_string()), Just("1969-12-31".to_string()), Just("0001-01-01".to_string()), Just("9999-12-31".to_string())], "(00|12|23):[0-9]{2}:[0-9]{2}\\.[0-9]{3}", "[VDIWEF]", "[A-Za-z]{0,8}").prop_map(|(d, t, l, tag)| format!("{} {}  1234  5678 {} {}: boundary", d, t, l, tag)),
         2 => ("[0-9]{1,12}\\.[0-9]{3}", "[VDIWEF]", "[A-Za-z]{0,8}", ".{0,20}").prop_map(|(t, l, tag, txt)| format!("{} {} {} {} {}: {}", t, 1, 2, l, tag, txt)),
         1 => ("[0-9]{13,22}\\.[0-9]{1,9}", "[VDIWEF]", "[A-Za-z]{0,8}").prop_map(|(t, l, tag)| format!("{} {} {} {} {}: huge", t, 1, 2, l, tag)),
+        // tags: very long ones, short ones with non-ASCII characters (several different ones per file)
+        1 => (prop_oneof![80 => 200usize..3000, 1 => Just(65_520usize), 1 => Just(65_536usize), 1 => 60_000usize..70_000], "[VDIWEF]").prop_map(|(n, l)| format!("1.000 12 34 {} {}: long tag", l, "a".repeat(n))),
+        2 => (prop::sample::select(vec!["abä", "abö", "abü", "ä", "ö", "aäb", "bäb", "äö", "ß", "aß€"]), "[VDIWEF]", any::<bool>()).prop_map(|(t, l, mono)| if mono { format!("1.000 12 34 {} {}: short tag", l, t) } else { format!("01-01 00:00:01.000 12 34 {} {}: short tag", l, t) }),
         1 => Just("--------- beginning of main".to_string()),
         1 => ".{0,60}"
     ]
@@ -408,9 +417,42 @@ fn genlog_line() -> impl Strategy<Value = String> {
         1 => ".{0,60}"
     ]
 }
+/// unicode look-alikes: the converters' regular expressions use the unicode aware `\s` / `\d` classes, so a
+/// no-break space or an arabic-indic digit is accepted where the code behind counts bytes
+fn unicodify(line: &str, sel: u16) -> String {
+    let cands: Vec<(usize, char)> = line.char_indices().filter(|(_, c)| *c == ' ' || c.is_ascii_digit()).collect();
+    if cands.is_empty() {
+        return line.to_string();
+    }
+    let (pos, c) = cands[(sel as usize * cands.len()) >> 16];
+    let repl = if c == ' ' {
+        ['\u{a0}', '\u{2003}', '\u{3000}', '\t'][sel as usize % 4]
+    } else {
+        let d = c as u32 - '0' as u32;
+        char::from_u32([0x660u32, 0xff10, 0x6f0, 0x966][sel as usize % 4] + d).unwrap()
+    };
+    let mut o = String::with_capacity(line.len() + 3);
+    o.push_str(&line[..pos]);
+    o.push(repl);
+    o.push_str(&line[pos + 1..]);
+    o
+}
+
 fn text(v: &(u8, Vec<String>, bool), rep: &mut Rep) -> Result<(), String> {
     let (kind, lines, crlf) = v;
     let ext = ["asc", "txt", "log"][*kind as usize % 3];
+    // a line ending in "\u{1}<n>" asks for a unicode look-alike at the n-th candidate position
+    let lines: Vec<String> = lines
+        .iter()
+        .map(|l| match l.rsplit_once('\u{1}') {
+            Some((body, n)) => {
+                rep.label("unicode_lookalike");
+                unicodify(body, n.parse().unwrap_or(0))
+            }
+            None => l.clone(),
+        })
+        .collect();
+    rep.label_if(lines.iter().any(|l| l.len() > 60_000), "line_gt_60000_bytes");
     let d = lines.join(if *crlf { "\r\n" } else { "\n" });
     rep.label(["text_asc", "text_logcat", "text_genlog"][*kind as usize % 3]);
     run_chain(ext, d.as_bytes(), false, rep, false)
@@ -443,8 +485,13 @@ pub fn def(tier: Tier) -> PropertyDef {
                     1 => prop_oneof![9 => logcat_line().boxed(), 1 => genlog_line().boxed()].boxed(),
                     _ => prop_oneof![9 => genlog_line().boxed(), 1 => asc_line().boxed()].boxed(),
                 };
+                // one line in eight gets a unicode look-alike for one of its blanks or digits
+                let line = (line, prop::option::weighted(0.12, any::<u16>())).prop_map(|(l, u)| match u {
+                    Some(n) => format!("{}\u{1}{}", l, n),
+                    None => l,
+                });
                 (Just(k), prop::collection::vec(line, 1..20), any::<bool>())
-            }), text).rates(&[("yielded_messages", 0.3)]).boxed(),
+            }), text).rates(&[("yielded_messages", 0.3), ("unicode_lookalike", 0.3)]).boxed(),
         ],
         workers: 16,
     }
